@@ -211,9 +211,20 @@ fn determinism(ids: &[String]) -> i32 {
 }
 
 fn main() {
-    // everything runs on a big-stack thread (large ArrayBuf<N> instantiations live on the stack)
+    // everything runs on one thread with a stack that holds the large ArrayBuf<N> instantiations
+    // (up to N = 300 000, several copies in an unoptimised build) but is small enough for
+    // recursion proportional to the input length to run out of it
+    let args: Vec<String> = std::env::args().collect();
+    let id = match args.get(1).map(|s| s.as_str()) {
+        Some("check") | Some("worker") => args.get(2).cloned(),
+        Some("exec-one") | Some("replay") => args.get(2).and_then(|p| runner::replay_property(&PathBuf::from(p))),
+        _ => None,
+    };
+    // the parsers never see a fixed-size buffer, so their unoptimised batch runs on a stack of
+    // the size an ordinary main thread has
+    let stack = if runner::unoptimised_build() && id.as_deref() == Some("C06") { 8 << 20 } else { runner::STACK_BYTES };
     let h = std::thread::Builder::new()
-        .stack_size(512 << 20)
+        .stack_size(stack)
         .spawn(real_main)
         .expect("spawn main thread");
     let code = h.join().unwrap_or(2);
